@@ -810,11 +810,91 @@ def normalise_names(trees: Dict[str, ast.Module], anchors: Set[str]) -> List[str
     return notes
 
 
+def expand_context_managers(trees: Dict[str, ast.Module]) -> List[str]:
+    """`with self.cm(a, b): BODY` for a generator-based context manager of the library
+    (`@contextmanager def cm(..): PRE; yield; POST`) is read as PRE; BODY; POST - what happens on normal
+    completion.  A try/finally around the yield contributes its finally part as POST."""
+    notes: List[str] = []
+    cms: Dict[str, Tuple[ast.FunctionDef, bool]] = {}
+    counts: Dict[str, int] = {}
+    for t in trees.values():
+        for n in ast.walk(t):
+            holder_is_class = isinstance(n, ast.ClassDef)
+            if isinstance(n, (ast.ClassDef, ast.Module)):
+                for st in n.body:
+                    if isinstance(st, ast.FunctionDef) and any((isinstance(d, ast.Name) and d.id == "contextmanager") or (isinstance(d, ast.Attribute) and d.attr == "contextmanager") for d in st.decorator_list):
+                        counts[st.name] = counts.get(st.name, 0) + 1
+                        cms[st.name] = (st, holder_is_class)
+    cms = {k: v for k, v in cms.items() if counts[k] == 1}
+    if not cms:
+        return notes
+
+    def split(fn: ast.FunctionDef):
+        body = _helper_body(fn)
+        ys = [n for n in _own_nodes(fn) if isinstance(n, (ast.Yield, ast.YieldFrom))]
+        if len(ys) != 1 or not isinstance(ys[0], ast.Yield):
+            return None
+        for i, st in enumerate(body):
+            if isinstance(st, ast.Expr) and st.value is ys[0]:
+                return body[:i], ys[0].value, body[i + 1:]
+            if isinstance(st, ast.Try) and len(st.body) == 1 and isinstance(st.body[0], ast.Expr) and st.body[0].value is ys[0] and not st.handlers and not st.orelse:
+                return body[:i], ys[0].value, list(st.finalbody) + body[i + 1:]
+        return None
+
+    n_sites = 0
+    for t in trees.values():
+        for holder in ast.walk(t):
+            for fld in ("body", "orelse", "finalbody"):
+                seq = getattr(holder, fld, None)
+                if not (isinstance(seq, list) and seq and isinstance(seq[0], ast.stmt)):
+                    continue
+                i = 0
+                while i < len(seq):
+                    st = seq[i]
+                    if isinstance(st, ast.With) and len(st.items) == 1 and isinstance(st.items[0].context_expr, ast.Call):
+                        call = st.items[0].context_expr
+                        f = call.func
+                        nm = f.attr if isinstance(f, ast.Attribute) else (f.id if isinstance(f, ast.Name) else None)
+                        if nm in cms and not (isinstance(holder, ast.FunctionDef) and holder is cms[nm][0]):
+                            fn, is_method = cms[nm]
+                            parts = split(fn)
+                            binding = _bind(fn, call, is_method and isinstance(f, ast.Attribute)) if parts else None
+                            if parts and binding is not None:
+                                pre, yv, post = parts
+                                names: Dict[str, ast.AST] = dict(binding)
+                                if is_method and isinstance(f, ast.Attribute) and fn.args.args:
+                                    names[fn.args.args[0].arg] = f.value
+                                stored = _stored_names(fn)
+                                sfx = "__i%d" % (sum(map(ord, fn.name)) % 97)
+                                rename = {s_: s_ + sfx for s_ in stored if s_ not in binding}
+                                if any(p in stored for p in binding):
+                                    i += 1
+                                    continue
+                                sub = _Subst(names, rename)
+                                new_pre = [sub.visit(copy.deepcopy(x)) for x in pre]
+                                new_post = [sub.visit(copy.deepcopy(x)) for x in post]
+                                bind_as = []
+                                if st.items[0].optional_vars is not None:
+                                    val = sub.visit(copy.deepcopy(yv)) if yv is not None else ast.Constant(value=None)
+                                    bind_as = [ast.copy_location(ast.Assign(targets=[st.items[0].optional_vars], value=val, lineno=st.lineno), st)]
+                                repl = new_pre + bind_as + list(st.body) + new_post
+                                for x in repl:
+                                    ast.fix_missing_locations(x)
+                                seq[i:i + 1] = repl
+                                n_sites += 1
+                                continue
+                    i += 1
+    if n_sites:
+        notes.append(f"context managers {sorted(cms)}: {n_sites} with-statement(s) read as enter; body; exit")
+    return notes
+
+
 def inline_helpers(trees: Dict[str, ast.Module], anchors: Optional[Set[str]] = None) -> List[str]:
     """In-place.  Returns notes `module: helper -> n sites (dissolved|kept)`."""
     anchors = anchor_names() if anchors is None else anchors
     notes: List[str] = normalise_names(trees, anchors)
     notes += expand_forwarders(trees)
+    notes += expand_context_managers(trees)
     # method names defined in more than one class anywhere are subject to dispatch
     method_count: Dict[str, int] = {}
     for t in trees.values():
